@@ -1,1 +1,295 @@
+//! C19 - OrderedSet: one inductive step from an arbitrary valid (duplicate-free) state of concrete length N,
+//! with an arbitrary argument, against a list model on a fixed array.  One step from every valid state covers every
+//! history over sets within the size bound.
+use crate::sym::{any, assume};
+use identity_core::common::{KeyComparable, OrderedSet};
 
+/// element whose key is a projection
+#[derive(Clone, Copy, Debug, PartialEq, Eq)]
+pub struct KV {
+  pub k: u8,
+  pub v: u8,
+}
+impl KeyComparable for KV {
+  type Key = u8;
+  fn key(&self) -> &u8 {
+    &self.k
+  }
+}
+
+fn distinct<const N: usize>(a: &[u8; N]) -> bool {
+  let mut i = 0;
+  while i < N {
+    let mut j = i + 1;
+    while j < N {
+      if a[i] == a[j] {
+        return false;
+      }
+      j += 1;
+    }
+    i += 1;
+  }
+  true
+}
+
+fn state<const N: usize>() -> ([u8; N], OrderedSet<u8>) {
+  let a: [u8; N] = core::array::from_fn(|_| any());
+  assume(distinct(&a));
+  let set = match OrderedSet::try_from(a.to_vec()) {
+    Ok(s) => s,
+    Err(e) => {
+      core::mem::forget(e);
+      panic!("duplicate-free vector rejected")
+    }
+  };
+  (a, set)
+}
+
+fn same<const M: usize>(set: &OrderedSet<u8>, want: &[u8; M], len: usize) {
+  assert_eq!(set.len(), len);
+  let s = set.as_slice();
+  let mut i = 0;
+  while i < len {
+    assert_eq!(s[i], want[i]);
+    i += 1;
+  }
+}
+
+fn has<const N: usize>(a: &[u8; N], x: u8) -> bool {
+  let mut i = 0;
+  while i < N {
+    if a[i] == x {
+      return true;
+    }
+    i += 1;
+  }
+  false
+}
+
+pub fn append<const N: usize, const M: usize>() {
+  let (a, mut set) = state::<N>();
+  let x: u8 = any();
+  let flag = set.append(x);
+  let dup = has(&a, x);
+  assert_eq!(flag, !dup);
+  let mut want = [0u8; M];
+  want[..N].copy_from_slice(&a);
+  if !dup {
+    want[N] = x;
+  }
+  same(&set, &want, if dup { N } else { N + 1 });
+  sym_cover!(dup, "duplicate argument");
+  sym_cover!(!dup, "fresh argument");
+  core::mem::forget(set);
+}
+
+pub fn prepend<const N: usize, const M: usize>() {
+  let (a, mut set) = state::<N>();
+  let x: u8 = any();
+  let flag = set.prepend(x);
+  let dup = has(&a, x);
+  assert_eq!(flag, !dup);
+  let mut want = [0u8; M];
+  if dup {
+    want[..N].copy_from_slice(&a);
+  } else {
+    want[0] = x;
+    want[1..N + 1].copy_from_slice(&a);
+  }
+  same(&set, &want, if dup { N } else { N + 1 });
+  sym_cover!(!dup, "fresh argument");
+  core::mem::forget(set);
+}
+
+pub fn remove<const N: usize, const M: usize>() {
+  let (a, mut set) = state::<N>();
+  let x: u8 = any();
+  let got = set.remove(&x);
+  let present = has(&a, x);
+  assert_eq!(got, if present { Some(x) } else { None });
+  let mut want = [0u8; M];
+  let mut n = 0;
+  let mut i = 0;
+  while i < N {
+    if a[i] != x {
+      want[n] = a[i];
+      n += 1;
+    }
+    i += 1;
+  }
+  same(&set, &want, n);
+  sym_cover!(present, "present element removed");
+  core::mem::forget(set);
+}
+
+/// list model of `change`: first position whose key is in `keys` gets `new`; every other element with such a key goes
+fn model_change<const N: usize, const M: usize>(a: &[u8; N], keys: [u8; 2], new: u8) -> (bool, [u8; M], usize) {
+  let mut want = [0u8; M];
+  let mut n = 0;
+  let mut done = false;
+  let mut i = 0;
+  while i < N {
+    let hit = a[i] == keys[0] || a[i] == keys[1];
+    if hit {
+      if !done {
+        want[n] = new;
+        n += 1;
+        done = true;
+      }
+    } else {
+      want[n] = a[i];
+      n += 1;
+    }
+    i += 1;
+  }
+  (done, want, n)
+}
+
+pub fn replace<const N: usize, const M: usize>() {
+  let (a, mut set) = state::<N>();
+  let (cur, upd): (u8, u8) = (any(), any());
+  let flag = set.replace(&cur, upd);
+  let (done, want, n) = model_change::<N, M>(&a, [cur, upd], upd);
+  assert_eq!(flag, done);
+  same(&set, &want, n);
+  sym_cover!(done && cur != upd, "replacement by a different key");
+  core::mem::forget(set);
+}
+
+pub fn update<const N: usize, const M: usize>() {
+  let (a, mut set) = state::<N>();
+  let upd: u8 = any();
+  let flag = set.update(upd);
+  let (done, want, n) = model_change::<N, M>(&a, [upd, upd], upd);
+  assert_eq!(flag, done);
+  same(&set, &want, n);
+  core::mem::forget(set);
+}
+
+/// key = projection: replace keeps position and swaps in the *new* value; uniqueness is by key, not by value
+pub fn replace_kv_2() {
+  let ks: [u8; 2] = [any(), any()];
+  assume(ks[0] != ks[1]);
+  let vs: [u8; 2] = [any(), any()];
+  let mut set = match OrderedSet::try_from(vec![KV { k: ks[0], v: vs[0] }, KV { k: ks[1], v: vs[1] }]) {
+    Ok(s) => s,
+    Err(e) => {
+      core::mem::forget(e);
+      panic!("rejected")
+    }
+  };
+  let cur = KV { k: any(), v: any() };
+  let upd = KV { k: any(), v: any() };
+  let flag = set.replace(&cur, upd);
+  let hit0 = ks[0] == cur.k || ks[0] == upd.k;
+  let hit1 = ks[1] == cur.k || ks[1] == upd.k;
+  assert_eq!(flag, hit0 || hit1);
+  let s = set.as_slice();
+  if hit0 {
+    assert!(s[0] == upd);
+    if hit1 {
+      assert_eq!(s.len(), 1);
+    } else {
+      assert!(s.len() == 2 && s[1] == KV { k: ks[1], v: vs[1] });
+    }
+  } else if hit1 {
+    assert!(s.len() == 2 && s[0] == KV { k: ks[0], v: vs[0] } && s[1] == upd);
+  } else {
+    assert!(s.len() == 2 && s[0] == KV { k: ks[0], v: vs[0] } && s[1] == KV { k: ks[1], v: vs[1] });
+  }
+  core::mem::forget(set);
+}
+
+/// TryFrom<Vec> rejects exactly the lists with duplicate keys; FromIterator keeps first occurrences
+pub fn from_vec_3() {
+  let a: [u8; 3] = [any(), any(), any()];
+  let r = OrderedSet::try_from(a.to_vec());
+  match r {
+    Ok(s) => {
+      assert!(distinct(&a));
+      same(&s, &a, 3);
+      core::mem::forget(s);
+    }
+    Err(e) => {
+      assert!(!distinct(&a));
+      core::mem::forget(e);
+    }
+  }
+  let c: OrderedSet<u8> = a.iter().copied().collect();
+  let mut want = [0u8; 3];
+  let mut n = 0;
+  let mut i = 0;
+  while i < 3 {
+    let mut seen = false;
+    let mut j = 0;
+    while j < i {
+      if a[j] == a[i] {
+        seen = true;
+      }
+      j += 1;
+    }
+    if !seen {
+      want[n] = a[i];
+      n += 1;
+    }
+    i += 1;
+  }
+  same(&c, &want, n);
+  core::mem::forget(c);
+}
+
+macro_rules! inst {
+  ($name:ident, $body:ident, $f:ident, $n:expr, $m:expr, $u:expr) => {
+    pub fn $body() {
+      $f::<$n, $m>()
+    }
+    proof!($name, unwind = $u, $body);
+  };
+}
+inst!(c19_append_0, b_append_0, append, 0, 1, 3);
+inst!(c19_append_1, b_append_1, append, 1, 2, 4);
+inst!(c19_append_2, b_append_2, append, 2, 3, 5);
+inst!(c19_append_3, b_append_3, append, 3, 4, 6);
+inst!(c19_prepend_0, b_prepend_0, prepend, 0, 1, 3);
+inst!(c19_prepend_1, b_prepend_1, prepend, 1, 2, 4);
+inst!(c19_prepend_2, b_prepend_2, prepend, 2, 3, 5);
+inst!(c19_prepend_3, b_prepend_3, prepend, 3, 4, 6);
+inst!(c19_remove_1, b_remove_1, remove, 1, 1, 4);
+inst!(c19_remove_2, b_remove_2, remove, 2, 2, 5);
+inst!(c19_remove_3, b_remove_3, remove, 3, 3, 6);
+inst!(c19_replace_1, b_replace_1, replace, 1, 1, 4);
+inst!(c19_replace_2, b_replace_2, replace, 2, 2, 5);
+inst!(c19_update_1, b_update_1, update, 1, 1, 4);
+inst!(c19_update_2, b_update_2, update, 2, 2, 5);
+proof!(c19_replace_kv_2, unwind = 5, replace_kv_2);
+proof!(c19_from_vec_3, unwind = 6, from_vec_3);
+
+pub fn twin_must_fail() {
+  let (a, mut set) = state::<2>();
+  let x: u8 = any();
+  assert!(set.append(x));
+  let _ = a;
+  core::mem::forget(set);
+}
+proof!(c19_twin_must_fail, unwind = 5, twin_must_fail);
+
+pub const BODIES: &[(&str, fn())] = &[
+  ("c19_append_0", b_append_0),
+  ("c19_append_1", b_append_1),
+  ("c19_append_2", b_append_2),
+  ("c19_append_3", b_append_3),
+  ("c19_prepend_0", b_prepend_0),
+  ("c19_prepend_1", b_prepend_1),
+  ("c19_prepend_2", b_prepend_2),
+  ("c19_prepend_3", b_prepend_3),
+  ("c19_remove_1", b_remove_1),
+  ("c19_remove_2", b_remove_2),
+  ("c19_remove_3", b_remove_3),
+  ("c19_replace_1", b_replace_1),
+  ("c19_replace_2", b_replace_2),
+  ("c19_update_1", b_update_1),
+  ("c19_update_2", b_update_2),
+  ("c19_replace_kv_2", replace_kv_2),
+  ("c19_from_vec_3", from_vec_3),
+  ("c19_twin_must_fail", twin_must_fail),
+];
